@@ -3,7 +3,7 @@
    roundtrip_ok / same_uid / validate_agrees / canonical_idempotent are defined in Spec.v. *)
 From Coq Require Import List NArith Bool.
 From Verif.Common Require Import Labels.
-From Verif.C06 Require Import Model Spec TokProofs ParseProofs ImageProofs ValidateProofs FuelProofs PinnedProofs Proofs.
+From Verif.C06 Require Import Model Spec TokProofs ParseProofs ImageProofs ValidateProofs FuelProofs PinnedProofs Proofs NormProofs.
 Import ListNotations.
 Open Scope N_scope.
 
@@ -17,6 +17,12 @@ Print Assumptions c06_print_parse.
 Theorem c06_print_parse_same_ast : forall s a, parse s = Ok a -> parse (to_string true a) = Ok a.
 Proof. exact roundtrip_fixed. Qed.
 Print Assumptions c06_print_parse_same_ast.
+
+(* AST-level printer/parser composition, for ANY well-formed AST (not only parser outputs) and both printers;
+   for the pinned printer (pn = false) well-formedness includes "no negation directly under a negation". *)
+Theorem c06_print_parse_wf_ast : forall pn a, wfb pn a = true -> parse (to_string pn a) = Ok a.
+Proof. exact parse_to_string. Qed.
+Print Assumptions c06_print_parse_wf_ast.
 
 (* FINDING: with the printer of the pinned tree the round trip fails (double negation through parentheses) ... *)
 Theorem c06_print_parse_refuted :
@@ -38,6 +44,23 @@ Theorem c06_pinned_meaning_preserved : forall s a, parse s = Ok a ->
   exists a', parse (to_string false a) = Ok a' /\ forall L : labels, eval a' L = eval a L.
 Proof. exact pinned_meaning_preserved. Qed.
 Print Assumptions c06_pinned_meaning_preserved.
+
+(* Exact extent of the finding: re-parsing the pinned canonical text yields `norm a` (every chain of negations
+   reduced modulo 2), so the pinned round trip returns the same AST if and only if no negation sits directly
+   under a negation; and a second pinned round trip changes nothing more. *)
+Theorem c06_pinned_reparse_norm : forall s a, parse s = Ok a -> parse (to_string false a) = Ok (norm a).
+Proof. exact pinned_reparse_norm. Qed.
+Print Assumptions c06_pinned_reparse_norm.
+
+Theorem c06_pinned_roundtrip_iff : forall s a, parse s = Ok a ->
+  (parse (to_string false a) = Ok a <-> nn_free a = true).
+Proof. exact pinned_roundtrip_iff. Qed.
+Print Assumptions c06_pinned_roundtrip_iff.
+
+Theorem c06_pinned_second_roundtrip_stable : forall s a, parse s = Ok a ->
+  parse (to_string false (norm a)) = Ok (norm a).
+Proof. exact pinned_second_roundtrip_stable. Qed.
+Print Assumptions c06_pinned_second_roundtrip_stable.
 
 (* Same identity hash, whatever the hash function is. *)
 Theorem c06_same_uid : forall (H : bytes -> bytes) s, same_uid parse (to_string true) (uid H true) s.
